@@ -1773,7 +1773,9 @@ class Element(Mapping[str, Attribute]):
                         if subelem is NULL:  # It's a singleton.
                             file.write(pack('<i', -1))
                         elif subelem.is_stub:
+                            # The reader expects the UUID as a null-terminated string after the marker.
                             file.write(pack('<i', -2))
+                            file.write(str(subelem.uuid).encode('ascii') + b'\0')
                         else:
                             file.write(pack('<i', elem_to_ind[subelem.uuid]))
                 else:
